@@ -1,6 +1,7 @@
 import PrimaiteModel.Model.Filter
 import PrimaiteModel.Model.FilterClass
 import PrimaiteModel.Model.FilterNet
+import PrimaiteModel.Model.FilterFwd
 open Primaite Primaite.Acl Primaite.Cut Primaite.Filter
 
 /-! Line-protocol driver for the C06 element models (Model/Filter.lean).
@@ -175,6 +176,13 @@ Network-level certificate (`certifyN`, proved sound in Props/C06Net.lean: hosts 
   t-label <node> <port> <base> <mask>                                                      (subnet of the port's layer-2 segment)
   t-rtrif <mac> <ip>                                                                      (an interface of a blocking router)
   t-certifyN → certifiedN | certifiedN-fw2 (the FwSecondOK hypothesis is not vacuous) | uncertifiedN <node|classcert>
+
+Reachability certificate (`certifyB`, proved sound in Props/C06Reach.lean: protected HOSTS unchanged, whatever else circulates):
+  t-roleB <node> <free|host|switch|rtr|fw|deaf> <inB 0/1>        (role of the node and whether it is inside the protected zone)
+  t-ba <ip>                                                     (an address a protected host answers to)
+  t-hop <ip>                                                    (a next hop configured on a router / firewall)
+  t-rtrifB <mac> <ip>                                           (an interface of ANY router / firewall)
+  t-certifyB → certifiedB | uncertifiedB <node>
 -/
 
 structure DState where
@@ -186,6 +194,11 @@ structure DState where
   kinds : List NKind := []
   labels : List ((Nat × Nat) × (Ip × Ip)) := []
   rtrIfs : List (Mac × Ip) := []
+  rolesB : List RoleTagB := []
+  zoneB : List Bool := []
+  ba : List Ip := []
+  rtrIfsB : List (Mac × Ip) := []
+  hopsB : List Ip := []
 
 def roleC : RoleTag → RoleTagC
   | .interior => .interior | .ifaceDown => .ifaceDown | .routerOff => .routerOff | .routerDeny => .routerDenyC
@@ -208,7 +221,14 @@ def fwHypFree (t : TopoN) (σ : Nat → DNode) : Bool :=
         | none => true)
 
 def nkindOf : Kind → NKind
-  | .host => .host | .switch => .switch | _ => .other
+  | .host => .host | .switch => .switch | .router => .router | _ => .other
+
+def DState.topoB (st : DState) : TopoB :=
+  { roles := st.rolesB, zoneB := st.zoneB, wires := st.topo.wires, ba := st.ba, rtrIfs := st.rtrIfsB, hops := st.hopsB }
+
+def parseRoleB : String → Option RoleTagB
+  | "free" => some .free | "host" => some .host | "switch" => some .switch | "rtr" => some .rtr | "fw" => some .fw
+  | "deaf" => some .deaf | _ => none
 
 def parseRole : String → Option RoleTag
   | "interior" => some .interior | "ifaceDown" => some .ifaceDown | "routerOff" => some .routerOff
@@ -222,7 +242,30 @@ def onNode (st : DState) (i : Nat) (f : DNode → DNode × String) : DState × S
 def stepAll (st : DState) : List String → DState × String
   | ["t-new"] =>
     ({ st with topo := { nodes := [], wires := [] }, states := [], cls := [], arpExempt := false, kinds := [], labels := [],
-               rtrIfs := [] }, "ok")
+               rtrIfs := [], rolesB := [], zoneB := [], ba := [], rtrIfsB := [], hopsB := [] }, "ok")
+  | ["t-roleB", i, role, inb] =>
+    match i.toNat?, parseRoleB role, parseBool inb with
+    | some i, some role, some inb =>
+      if i < st.rolesB.length then ({ st with rolesB := st.rolesB.set i role, zoneB := st.zoneB.set i inb }, "ok") else (st, "bad-op")
+    | _, _, _ => (st, "bad-op")
+  | ["t-ba", ip] =>
+    match parseIp ip with
+    | some ip => ({ st with ba := st.ba ++ [ip] }, "ok")
+    | none => (st, "bad-op")
+  | ["t-hop", ip] =>
+    match parseIp ip with
+    | some ip => ({ st with hopsB := st.hopsB ++ [ip] }, "ok")
+    | none => (st, "bad-op")
+  | ["t-rtrifB", mac, ip] =>
+    match mac.toNat?, parseIp ip with
+    | some mac, some ip => ({ st with rtrIfsB := st.rtrIfsB ++ [(mac, ip)] }, "ok")
+    | _, _ => (st, "bad-op")
+  | ["t-certifyB"] =>
+    let σ : Nat → DNode := fun n => st.states.getD n initNode
+    if certifyB st.topoB σ then (st, "certifiedB")
+    else match certifyFailB st.topoB σ with
+      | some n => (st, s!"uncertifiedB {n}")
+      | none => (st, "uncertifiedB ?")
   | ["t-iface", i, en, ip, mask, mac] =>
     match i.toNat?, parseBool en, parseIp ip, parseIp mask, mac.toNat? with
     | some i, some en, some ip, some mask, some mac =>
@@ -269,7 +312,8 @@ def stepAll (st : DState) : List String → DState × String
     match parseKind k, parseBool on, parseBool side, parseRole role with
     | some k, some on, some side, some role =>
       ({ st with topo := { st.topo with nodes := st.topo.nodes ++ [(side, role)] },
-                 states := st.states ++ [{ initNode with kind := k, on := on }], kinds := st.kinds ++ [nkindOf k] }, "ok")
+                 states := st.states ++ [{ initNode with kind := k, on := on }], kinds := st.kinds ++ [nkindOf k],
+                 rolesB := st.rolesB ++ [.free], zoneB := st.zoneB ++ [false] }, "ok")
     | _, _, _, _ => (st, "bad-op")
   | ["t-iface", i, en] =>
     match i.toNat?, parseBool en with
